@@ -100,7 +100,7 @@ func runConfigTrace(t *Trace, want string) *Result {
 			c := cfg.Clone()
 			c.SetDefaults()
 			verr = c.Verify()
-			if verr == nil && tableBytes(c) > 32<<20 {
+			if verr == nil && tableBytes(c) > 192<<20 {
 				res.Probes["cfg_not_instantiated_memory_bound"]++
 				perr = nil
 				return
@@ -261,24 +261,37 @@ func genMultiTrace(r *RNG, tier string) *Trace {
 			continue
 		}
 		pg := defaultPGen()
-		pg.nOps = 14
+		pg.nOps = 14 + r.Intn(20)
 		pg.wReadAt = 0
+		pg.wShrink = 5
 		pg.plan = planOpts{chunk: true}
 		pt := genParserTrace(r, tier, ptOpts{types: parserTypes, pg: pg, classW: []int{50, 50, 0, 0}, wrapShare: 0.2,
-			families: []string{"iid2", "iid3", "copyback", "periodic", "runs", "fib"}})
-		if len(pt.Input) > 600 {
-			pt.Input = pt.Input[:600]
+			families: []string{"iid2", "iid3", "copyback", "periodic", "runs", "fib"},
+			tweak: func(r *RNG, p *ParserSpec) {
+				// small tables: every entry matters for the next matches
+				if r.Chance(0.6) {
+					p.HashBits, p.HashBits1, p.HashBits2 = r.Range(1, 3), r.Range(1, 3), r.Range(1, 3)
+				}
+				if p.ShrinkSize > p.BufferSize/2 {
+					p.ShrinkSize = p.BufferSize / 2
+				}
+			}})
+		if len(pt.Input) > 900 {
+			pt.Input = pt.Input[:900]
 		}
 		t.Tasks = append(t.Tasks, pt)
 	}
 	// same-type pair: shared scratch between two instances of one type is the
 	// likeliest interference
-	if r.Chance(0.5) && t.Tasks[0].World == "parser" {
+	if r.Chance(0.7) && t.Tasks[0].World == "parser" {
 		c := t.Tasks[0].Clone()
 		if r.Chance(0.5) {
 			c.Input = genInput(r, len(c.Input), "iid3")
 		}
 		t.Tasks[len(t.Tasks)-1] = c
+		if len(t.Tasks) > 2 && r.Chance(0.5) {
+			t.Tasks[1] = t.Tasks[0].Clone()
+		}
 	}
 	return t
 }
@@ -292,7 +305,10 @@ func runC13(t *Trace) *Result {
 	// oracle 2: determinism (same process; cross-process is checked by the driver via digests)
 	a2 := runParserTrace(t, "C13", nil, 0, 0)
 	res.Probes["c13_determinism_compared"]++
-	if d := firstObsDiff(a, a2, true); d >= 0 {
+	if firstObsDiff(a, a2, false) < 0 && firstObsDiff(a, a2, true) >= 0 {
+		res.Probes["rerun_ticks_differ_only"]++
+	}
+	if d := firstObsDiff(a, a2, false); d >= 0 {
 		res.Viol = &Violation{Prop: "C13", Clause: "nondeterministic", Step: d,
 			Msg: fmt.Sprintf("the same trace executed twice differs at operation %d: %q vs %q (ticks %d vs %d)", d, obsAt(a, d), obsAt(a2, d), tickAt(a, d), tickAt(a2, d))}
 		return res
